@@ -2,6 +2,7 @@ import Driver.Json
 import Driver.OpsAlgo
 import Driver.OpsMachines
 import Driver.OpsComb
+import Driver.OpsViz
 /-
   Line protocol driver: one JSON scenario per input line, one JSON answer per output line.
 -/
@@ -23,6 +24,7 @@ def handle (j : Json) : M Json := do
   | "enhanced_dhar" => opEnhancedDhar j
   | "greedy" => opGreedy j
   | "winnable_hist" => opWinnableHist j
+  | "elements" => opElements j
   | "parking" => opParking j
   | "parking_gen" => opParkingGen j
   | "superstable_count" => opSuperstableCount j
